@@ -530,6 +530,9 @@ class DynDiGraph(nx.DiGraph):
         if not isinstance(t, list):
             t = [t, t]
         if e is not None and self.edge_removal:
+            if e <= t[0]:
+                # the span t..e-1 is empty: there is nothing to add
+                return
             t[1] = e - 1
 
         app = None
